@@ -375,6 +375,8 @@ def observe_species(c):
 
 
 def g_jv(v):
+    if v is None:
+        return "JNull"
     if isinstance(v, bool):
         return "(JBool %s)" % g_bool(v)
     if isinstance(v, str):
@@ -432,6 +434,104 @@ def species_items(cases):
     return items
 
 
+def make_reaction_case(rng):
+    """a reaction with a random equation (coefficients incl. 0, up to 3 terms per side, empty sides), constants of the right dimension stated
+    as text in random units, single or per environment, labelled or not"""
+    labels = ["A", "B", "C2", "x_y", "ATP", "2PG"]
+
+    def side():
+        ls = rng.sample(labels, rng.randint(0, 3))
+        return [[l, rng.choice([0, 1, 1, 2, 3])] for l in ls]
+    sub, prod = side(), side()
+    n, m = sum(z for _, z in sub), sum(z for _, z in prod)
+    envs = ["e0", "e1", "cyt", "default"]
+
+    def qty(order):
+        v = rng.choice([0.0, 1.0, 2.5, 0.1, 1e-3, 12345.678, 7.25e-12, float(rng.randint(1, 999))])
+        return {"v": v, "sys": list(sysgen.rand_sys(rng)), "dim": list(sysgen.kdim(order))}
+
+    def envq(order):
+        if rng.random() < 0.6:
+            return {"scalar": qty(order)}
+        return {"dict": [[k, qty(order)] for k in rng.sample(envs, rng.randint(1, 3))]}
+    return {"label": rng.choice([None, None, "r1", "fwd_2", "k-1"]), "sub": sub, "prod": prod, "kf": envq(n), "kr": envq(m),
+            "units": list(sysgen.rand_sys(rng)), "parent": list(sysgen.rand_sys(rng)), "alias_seed": rng.randrange(2 ** 30)}
+
+
+def observe_reaction(c):
+    import strengths
+    import strengths.rdnetwork as rn
+    U = strengths.units
+
+    def arg(ev):
+        return _qtext(ev["scalar"]) if "scalar" in ev else {k: _qtext(q) for k, q in ev["dict"]}
+    try:
+        r = strengths.Reaction([dict((l, z) for l, z in c["sub"]), dict((l, z) for l, z in c["prod"])], kf=arg(c["kf"]), kr=arg(c["kr"]),
+                               label=c["label"], units_system=sysgen.py_sys(U, c["units"]))
+        written = rn.reaction_to_dict(r)
+    except Exception as e:
+        return {"error": "%s: %s" % (type(e).__name__, str(e)[:100])}
+    parent = sysgen.py_sys(U, c["parent"])
+    rng = random.Random(c["alias_seed"])
+    variants = [["as_written", copy.deepcopy(written)]]
+    for syn in ALIASES.get("reaction", []):
+        if syn[0] in written and len(syn) > 1 and rng.random() < 0.5:
+            v = copy.deepcopy(written)
+            v[rng.choice(syn[1:])] = v.pop(syn[0])
+            variants.append(["alias:" + syn[0], v])
+    for key in ("k+", "k-", "label", "units"):
+        if rng.random() < 0.4:
+            v = copy.deepcopy(written)
+            del v[key]
+            variants.append(["omitted:" + key, v])
+    v = copy.deepcopy(written)
+    v["units"] = rng.choice(["inherit", "default"])
+    variants.append(["units:" + v["units"], v])
+    out = []
+    for label, v in variants:
+        try:
+            out.append([label, v, rn.reaction_to_dict(rn.reaction_from_dict(copy.deepcopy(v), parent))])
+        except Exception as e:
+            out.append([label, v, {"raised": type(e).__name__}])
+    return {"written": written, "variants": out}
+
+
+def emit_reaction(c, o):
+    def gq(q):
+        return "(%s, (%s, %s))" % (g_codepoints(repr(float(q["v"]))), si.g_usys(q["sys"]), si.g_dim(q["dim"]))
+
+    def gev(ev):
+        if "scalar" in ev:
+            return "(EScalar _ %s)" % gq(ev["scalar"])
+        return "(EDict _ %s)" % g_list(["(%s, %s)" % (g_codepoints(k), gq(x)) for k, x in ev["dict"]])
+
+    def gside(sd):
+        return g_list(["(%s, %s)" % (g_codepoints(l), core.g_z(z)) for l, z in sd])
+    gr = "(Build_reaction_obj str %s (%s, %s) %s %s %s)" % (
+        "None" if c["label"] is None else "(Some %s)" % g_codepoints(c["label"]), gside(c["sub"]), gside(c["prod"]), gev(c["kf"]), gev(c["kr"]),
+        si.g_usys(c["units"]))
+    gc = "((%s : re_obj), %s)" % (gr, si.g_usys(c["parent"]))
+    if "error" in o:
+        return gc, "(JBool false, [])"
+    go = "(%s, %s)" % (g_jv(o["written"]), g_list(["(%s, %s)" % (g_jv(v), g_jv(w)) for _, v, w in o["variants"]]))
+    return gc, go
+
+
+def reaction_items(cases):
+    obs = child.map_children("c12", "observe_reaction", cases, timeout=60)
+    items = []
+    for c, o in zip(cases, obs):
+        if "timeout" in o or "crash" in o:
+            o = {"error": "timeout or crash"}
+        try:
+            gc, go = emit_reaction(c, o)
+        except ValueError as e:
+            o = {"error": str(e)}
+            gc, go = emit_reaction(c, o)
+        items.append({"case": c, "obs": o, "gcase": gc, "gobs": go, "nontrivial": "error" not in o})
+    return items
+
+
 def check(run):
     rng = random.Random(run.seed)
     sysgen.POOLS["space"] = ["cm", "mm", "dmm", "cmm", "µm", "nm", "dm"]
@@ -463,11 +563,19 @@ def check(run):
         for label, _, _ in it["obs"].get("variants", []):
             run.count("species_variant:" + label.split(":")[0])
     core.decide(run, sitems, IMPORTS, "accept_C12_species", oracle_species, shard=40)
+    ritems = reaction_items([make_reaction_case(rng) for _ in range(ns)])
+    for it in ritems:
+        for label, _, _ in it["obs"].get("variants", []):
+            run.count("reaction_variant:" + label.split(":")[0])
+    core.decide(run, ritems, IMPORTS, "accept_C12_reaction", oracle_species, shard=40)
 
 
 def replay(run, payload):
     sysgen.POOLS["space"] = ["cm", "mm", "dmm", "cmm", "µm", "nm", "dm"]
     if payload.get("correspondence") == "accept_C12_species":
         core.decide(run, species_items([payload["case"]]), IMPORTS, "accept_C12_species", oracle_species)
+        return
+    if payload.get("correspondence") == "accept_C12_reaction":
+        core.decide(run, reaction_items([payload["case"]]), IMPORTS, "accept_C12_reaction", oracle_species)
         return
     core.decide(run, build_items([payload["case"]]), IMPORTS, "accept_C12", oracle)
